@@ -925,10 +925,13 @@ where
                     }
                     Err(e) => {
                         // A root node that is an alias to an anchor this document does not
-                        // define fails this document only (as the same alias does further down
-                        // in a document): go on with the next one.
-                        if matches!(e.without_snippet(), Error::UnknownAnchor { .. })
-                            && self.src.skip_to_next_document()
+                        // define, or that is itself over a per-document limit, fails this
+                        // document only (as the same alias or breach does further down in a
+                        // document): go on with the next one.
+                        if matches!(
+                            e.without_snippet(),
+                            Error::UnknownAnchor { .. } | Error::Budget { .. }
+                        ) && self.src.skip_to_next_document()
                         {
                             return Some(Err(e));
                         }
@@ -1326,10 +1329,13 @@ where
                     }
                     Err(e) => {
                         // A root node that is an alias to an anchor this document does not
-                        // define fails this document only (as the same alias does further down
-                        // in a document): go on with the next one.
-                        if matches!(e.without_snippet(), Error::UnknownAnchor { .. })
-                            && self.src.skip_to_next_document()
+                        // define, or that is itself over a per-document limit, fails this
+                        // document only (as the same alias or breach does further down in a
+                        // document): go on with the next one.
+                        if matches!(
+                            e.without_snippet(),
+                            Error::UnknownAnchor { .. } | Error::Budget { .. }
+                        ) && self.src.skip_to_next_document()
                         {
                             return Some(Err(e));
                         }
@@ -2004,8 +2010,10 @@ where
 /// - After a **deserialization error** (e.g., type mismatch, missing field), the iterator
 ///   automatically recovers by skipping to the next document boundary (`---`) and continues
 ///   iteration. This allows processing subsequent valid documents even when some fail.
-/// - After a **syntax error** or **budget/alias limit exceeded**, the iterator ends because
-///   the parser state may be unrecoverable.
+/// - A document that exceeds a **budget or alias limit** fails on its own as well (limits are
+///   per document here): the iterator goes on with the next document.
+/// - After a **syntax error** or a **reader failure** the iterator ends because the parser
+///   state may be unrecoverable.
 /// - Empty/null-like documents are skipped and produce no items.
 #[allow(deprecated)]
 pub fn read_with_options<'a, R, T>(
@@ -2078,10 +2086,13 @@ where
                     }
                     Err(e) => {
                         // A root node that is an alias to an anchor this document does not
-                        // define fails this document only (as the same alias does further down
-                        // in a document): go on with the next one.
-                        if matches!(e.without_snippet(), Error::UnknownAnchor { .. })
-                            && self.src.skip_to_next_document()
+                        // define, or that is itself over a per-document limit, fails this
+                        // document only (as the same alias or breach does further down in a
+                        // document): go on with the next one.
+                        if matches!(
+                            e.without_snippet(),
+                            Error::UnknownAnchor { .. } | Error::Budget { .. }
+                        ) && self.src.skip_to_next_document()
                         {
                             return Some(Err(e));
                         }
